@@ -26,6 +26,7 @@ import r_encadmit
 import r_resdom
 import r_convidx
 import r_lwepair
+import r_budget
 import r_rngprov
 import r_dispatch
 import r_range
@@ -740,6 +741,8 @@ def c14(facts, tier):
     writers = [p for p in facts.items if facts.items[p]["name"].startswith("serialize") and
                not facts.items[p]["name"].startswith("serialized") and "std::io::Error" in facts.items[p].get("ret", "")]
     repstate(facts, rep, writers, 110)
+    n = r_wire.run_use(facts, rep)
+    rep.floor("R-WIRE(use)", "readers with let-bound reads", n, 8)
     return rep
 
 
@@ -800,7 +803,32 @@ def c19(facts, tier):
     return rep
 
 
+def c07(facts, tier):
+    rep = Report("C07", tier, facts,
+                 "R-BUDGET: Decryptor::invariant_noise_budget follows the pipeline of its definition on the BFV and BGV "
+                 "projections (phase by dot_product_ct_sk_array, scaling by plain_modulus.value() for BFV only, CRT "
+                 "composition, centred infinity norm against total_coeff_modulus() of the ciphertext's level, in this order), "
+                 "returns bits(q_level) - bits(norm) - 1 clamped at 0 with the bit count of the level's TOTAL modulus, and "
+                 "poly_infty_norm centres against half_round_up(modulus) and keeps the maximum; R-REPSTATE: the budget is "
+                 "computed on coefficient-form data (NTT-form input is refused); R-RNGPROV(rns): error and ternary samples "
+                 "carry one small value in every RNS component.",
+                 "that the reported number EQUALS the exactly computed budget, the fresh-encryption bound, the growth bounds "
+                 "under negation / addition, exact decryption below the threshold — all value-level.")
+    r_budget.run(facts, rep)
+    ents = [p for p in facts.items if p.startswith("encryptor::Decryptor::") and facts.items[p].get("vis") == "pub"
+            and "noise" in facts.items[p]["name"]]
+    repstate(facts, rep, ents, 2)
+    sub = Report("C07", tier, facts, "", "")
+    r_rngprov.run_c16(facts, sub)
+    for i in sub.instances:
+        if "(rns)" in i["rule"]:
+            rep.instances.append(i)
+    rep.rules.update({k: v for k, v in sub.rules.items() if "(rns)" in k})
+    return rep
+
+
 CHECKS = {
+    "C07": c07,
     "C19": c19,
     "C10": c10,
     "C01": c01,
